@@ -53,7 +53,13 @@ def _call_with_timeout(func: Callable[[], T], timeout_s: float) -> T:
     executor = ThreadPoolExecutor(max_workers=1)
     future = executor.submit(func)
     try:
-        return future.result(timeout=timeout_s)
+        result = future.result(timeout=timeout_s)
+        # Future.result() decides with `if self._exception:`; an exception instance that
+        # is falsy (defines __len__/__bool__) would be reported as a None result.
+        failure = future.exception()
+        if failure is not None:
+            raise failure
+        return result
     except FutureTimeoutError as exc:
         if future.done() and future.exception() is exc:
             # The operation itself raised a TimeoutError (the builtin one is
